@@ -71,6 +71,21 @@ class LockFacts:
                 continue
             self.held_at[f.id] = self._dataflow(f, gl)
 
+    def held(self, f):
+        """held_at of a function object: for an inlined view the dataflow runs over the view's own blocks"""
+        if not getattr(f, "inlined", None):
+            return self.held_at.get(f.id, {})
+        if not hasattr(self, "_views"):
+            self._views = {}
+        if f.id not in self._views:
+            gl = {}
+            for i, ty in enumerate(f.locals):
+                gc = guard_class(ty)
+                if gc:
+                    gl[i] = gc
+            self._views[f.id] = self._dataflow(f, gl) if gl else {}
+        return self._views[f.id]
+
     def _dataflow(self, f, gl):
         n = len(f.blocks)
         IN = [None] * n
